@@ -107,7 +107,7 @@ def known_family(case, m, prop=None):
     that known_findings.json lists for that property count (a case may
     satisfy several predicates; the first one listed for `prop` is named)."""
     for fam in _families_of(case, m):
-        if fam.endswith("#not-jobtail"):
+        if fam.endswith("#not-jobtail") or fam.endswith("#not-seqlast"):
             fam = fam.split("#")[0]
             if prop == "C01":
                 continue
@@ -149,23 +149,34 @@ def _families_of(case, m):
     # the loop families need the loop to be *observed*: if no job repeats an
     # event type the directly-follows graph of a definition with distinct
     # names is acyclic and the loop code of the learner never runs
-    if not any(len({t for t, _ in j}) < len(j) for j in m.jobs):
+    observed = any(len({t for t, _ in j}) < len(j) for j in m.jobs)
+    if not observed and "empty_break_seqlast" in f:
+        out.append("PV-F-B0-trailing-loop-empty-break")
+    if not observed:
         f = tuple(x for x in f if x not in (
             "break_multi_loop_last", "break_multi_jobtail",
             "break_loop_tail_of_loop", "break_loop_tail_of_loop_jobtail",
+            "empty_break_loop_tail_of_loop",
             "break_loop_tail_of_fork_ending_loop",
-            "empty_break_beside_break"))
+            "empty_break_beside_break", "empty_break_beside_break_seqlast"))
     if "break_multi_jobtail" in f:
         out.append("PV-F-B-trailing-loop-multi-event-break")
     if "empty_break_loop_last" in f:
         out.append("PV-F-B0-trailing-loop-empty-break")
     if "empty_break_beside_break" in f:
-        out.append("PV-F-H-empty-break-beside-another-break")
+        # C01 is only hit when that loop is also the last item of its
+        # sequence (24 of the enumerated loop shapes; none otherwise)
+        out.append("PV-F-H-empty-break-beside-another-break"
+                   + ("" if "empty_break_beside_break_seqlast" in f
+                      else "#not-seqlast"))
     if "break_loop_tail_of_loop" in f:
         # C01 is only hit when nothing follows the enclosing loop either
-        # (measured: 49/49 there, 0/124 otherwise once F-B is set aside)
+        # (measured: 49/49 there, 0/124 otherwise once F-B is set aside) or
+        # when the inner loop's break branch is empty (25 of the enumerated
+        # loop shapes, text does not even parse)
         out.append("PV-F-C-break-loop-at-tail-of-loop-body"
-                   + ("" if "break_loop_tail_of_loop_jobtail" in f
+                   + ("" if ("break_loop_tail_of_loop_jobtail" in f
+                             or "empty_break_loop_tail_of_loop" in f)
                       else "#not-jobtail"))
     if "break_loop_tail_of_fork_ending_loop" in f:
         out.append("PV-F-C2-break-loop-ends-fork-branch-ending-loop-body")
